@@ -112,9 +112,9 @@ func propC01(t *rapid.T) {
 	inflated := 0
 	if k := rapid.IntRange(0, 199).Draw(t, "inflate"); k == 0 || (tierThorough() && k < 8) {
 		// size-dependent behaviour: a few hundred to a few thousand rows, and very long cells
-		inflated = rapid.SampledFrom([]int{300, 1100, 4200}).Draw(t, "inflateTo")
-		if !tierThorough() {
-			inflated = 300
+		inflated = rapid.SampledFrom([]int{300, 1100, 4200, 8400, 17000}).Draw(t, "inflateTo")
+		if !tierThorough() && inflated > 8400 {
+			inflated = 8400
 		}
 		f = sgen.InflateFeed(f, inflated)
 		if len(f.Stops) > 0 {
